@@ -95,10 +95,15 @@ class SetupActor:
             if not reusable:
                 pool = [p for p in pool if p != cid]
             chosen.append(cid)
+        # names are NOT in alphabetical order of declaration (anything that sorts
+        # channels by name must not change behaviour)
+        suffixes = list(range(len(chosen)))
+        if profile.get("shuffle_names", True):
+            rng.shuffle(suffixes)
         k = 0
         for cid in chosen:
             ch = device.channels[cid]
-            name = f"c{k}"
+            name = f"c{suffixes[k]}"
             k += 1
             op = {"op": "declare_channel", "name": name, "channel_id": cid}
             if ch.addressing == "Local" and rng.random() < 0.7:
